@@ -38,7 +38,7 @@ Definition accepts_spec (c : cfg) (f : frag) (m : mol) : bool :=
 
 Lemma accepts_shape c f m : accepts c f m = accepts_spec c f m.
 Proof.
-  unfold accepts, accepts_spec, g_nla_eq, g_chic_eq, g_fragment_eq. cbv zeta.
+  unfold accepts, accepts_spec, g_nla_eq, g_chic_eq, g_fragment_eq, g_mol_span_ok. cbv zeta.
   generalize (umi_eq (c_d c) (f_umi f) (rep_of (m_frags m))) (zs_eqb (key c f) (hash_of c (m_frags m))).
   intros u h. destruct (c_cls c =? 1); [destruct h, u; shape|].
   destruct (c_cls c =? 2).
@@ -46,6 +46,10 @@ Proof.
   - generalize (Z.min (Z.abs (f_site f - start_of (m_frags m))) (Z.abs (f_end f - end_of (m_frags m)))). intros x.
     destruct u; shape.
 Qed.
+
+(* Molecule.has_valid_span: both ends set (`is not None`; position 0 is a valid coordinate) *)
+Lemma mol_span_shape s e : g_mol_span_ok s e = s && e.
+Proof. unfold g_mol_span_ok. destruct s, e; shape. Qed.
 
 (* ---- match_hash: which components the tuple (composed with the stores of set_site) pins down *)
 Lemma key_nla c f g : c_cls c = 1 ->
